@@ -56,7 +56,7 @@ def set_auth(ike_sa, which, **kw):
     ike_sa.configuration = conf._replace(**{which: getattr(conf, which)._replace(**kw)})
 
 
-def h_verify(role, conf_kind, auth_len=None, shape='plain'):
+def h_verify(role, conf_kind, auth_len=None, shape='plain', id_len=None):
     """role 'responder': B in INIT_RES_SENT gets IKE_AUTH request; 'initiator': A in AUTH_REQ_SENT gets the IKE_AUTH response"""
     from symx import core, shims
     eng = core.engine()
@@ -86,8 +86,11 @@ def h_verify(role, conf_kind, auth_len=None, shape='plain'):
         pub = ModelRsa(b'peer-key', rsa_uf)
         set_auth(me, 'peer_auth', pubkey=pub, psk=None if conf_kind == 'rsa_only' else psk)
     conf_id = me.configuration.peer_auth.id
+    if id_len is not None and not isinstance(eng, core.ReplayEngine):
+        # the configured identity as (concrete) engine bytes: operators that take the presented identity as their LEFT operand (`in`) are modelled too
+        set_auth(me, 'peer_auth', id=m.PayloadID(conf_id.id_type, core.SymBytes(list(conf_id.id_data))))
     id_type = eng.sym_int('id_type', 0, 255)
-    id_data = eng.sym_bytes('id_data', len(conf_id.id_data))
+    id_data = eng.sym_bytes('id_data', len(conf_id.id_data) if id_len is None else id_len)
     method = eng.sym_int('method', 0, 255)
     if auth_len is None:
         auth_len = 128 if conf_kind == 'rsa_only' else 32
@@ -581,6 +584,10 @@ def build_instances(tier):
         for kind in KEY_KINDS:
             for n in ((64, 128) if tier == 'quick' else (0, 32, 64, 72, 114, 128, 256)):
                 inst.append(Instance(f'pubkey {role} {kind} auth_len={n}', h_pubkey, (role, kind, n), pin=('method',)))
+    # presented identities shorter / longer than the configured one (15 octets): a prefix, a suffix, an inner part, an extension
+    for role in ('responder', 'initiator'):
+        for n in ((0, 1, 9, 14, 16) if tier == 'quick' else (0, 1, 2, 5, 9, 10, 13, 14, 16, 17, 30)):
+            inst.append(Instance(f'verify {role} psk id_len={n}', h_verify, (role, 'psk', None, 'plain', n), pin=('id_type', 'id_data', 'method')))
     for ak in ('psk', 'rsa'):
         inst.append(Instance(f'sign {ak}', h_sign, (ak,), engine_kw={'max_ticks': 10 ** 7}))
     inst.append(Instance('credential / identity mismatch', h_mismatch, (), engine_kw={'max_ticks': 10 ** 7},
